@@ -32,13 +32,16 @@ Subset
 import json, os, re, subprocess, sys
 
 KERNELS = [
-    # key, file, function, group (which Properties file / hook counts it)
-    ("murmur3_block", "mh_sha1_murmur3_x64_128/murmur3_x64_128_internal.c", "_murmur3_x64_128_block", "c10"),
-    ("murmur3_tail", "mh_sha1_murmur3_x64_128/murmur3_x64_128_internal.c", "_murmur3_x64_128_tail", "c10"),
-    ("sha256_single", "sha256_mb/sha256_ctx_base.c", "sha256_single", "c01"),
-    ("sha1_single", "sha1_mb/sha1_ctx_base.c", "sha1_single", "c01"),
-    ("sha512_single", "sha512_mb/sha512_ctx_base.c", "sha512_single", "c01"),
-    ("md5_single", "md5_mb/md5_ctx_base.c", "md5_single", "c01"),
+    # key, file, function, group (which Properties file / hook counts it), interface of the Gallina
+    # function after `fuel` (L = list N: a memory object or the junk of a local array, N = scalar);
+    # the extraction and the drivers are written against this interface, so a kernel that is not
+    # translated - or whose interface changed - gets a stub returning None (fail closed)
+    ("murmur3_block", "mh_sha1_murmur3_x64_128/murmur3_x64_128_internal.c", "_murmur3_x64_128_block", "c10", "LNL"),
+    ("murmur3_tail", "mh_sha1_murmur3_x64_128/murmur3_x64_128_internal.c", "_murmur3_x64_128_tail", "c10", "LNLL"),
+    ("sha256_single", "sha256_mb/sha256_ctx_base.c", "sha256_single", "c01", "LLL"),
+    ("sha1_single", "sha1_mb/sha1_ctx_base.c", "sha1_single", "c01", "LLL"),
+    ("sha512_single", "sha512_mb/sha512_ctx_base.c", "sha512_single", "c01", "LLL"),
+    ("md5_single", "md5_mb/md5_ctx_base.c", "md5_single", "c01", "LL"),
 ]
 
 
@@ -828,7 +831,9 @@ def cq_function(key, fn):
             objs_init.append("mkobj %d %s" % (o["cw"], ident(o["name"])))
         else:
             objs_init.append("mkobj %d (firstn %d (junk_%s ++ repeat 0 %d))" % (o["cw"], o["ncells"], ident(o["name"]), o["ncells"]))
+    fn.sig = "".join("N" if a.endswith(": N)") else "L" for a in args)
     outs = [i for i, o in enumerate(fn.objs) if o["kind"] == "param" and o["written"]]
+    fn.nouts = len(outs)
     if len(outs) == 1:
         res_ty = "option (list N)"
         res = "get_obj st %d" % outs[0]
@@ -869,18 +874,23 @@ def generate(repo, kernels=None):
     kernels = kernels or KERNELS
     text = HEADER % "the current working tree"
     status, fns = {}, {}
-    for key, rel, func, group in kernels:
+    for key, rel, func, group, sig in kernels:
         try:
             fn = translate_kernel(repo, rel, func)
-            text += cq_function(key, fn) + "\n"
+            body = cq_function(key, fn)
+            if fn.sig != sig or fn.nouts != 1:
+                raise Unsupported("interface changed: parameters/objects %s with %d written pointer parameters, expected %s with 1" % (fn.sig, fn.nouts, sig))
+            text += body + "\n"
             status[key] = None
             fns[key] = fn
         except Unsupported as ex:
             status[key] = str(ex)
-            text += "(* %s (%s in %s): NOT TRANSLATED - %s *)\n\n" % (key, func, rel, str(ex).replace("*)", "* )"))
-        except (KeyError, IndexError, ValueError, TypeError) as ex:
+        except (KeyError, IndexError, ValueError, TypeError, AttributeError) as ex:
             status[key] = "translator error: %r" % (ex,)
-            text += "(* %s (%s in %s): NOT TRANSLATED - translator error *)\n\n" % (key, func, rel)
+        if status[key] is not None:
+            text += "(* %s (%s in %s): NOT TRANSLATED - %s *)\n" % (key, func, rel, status[key].replace("*)", "* )").replace("(*", "( *"))
+            text += "Definition c_%s (fuel : nat) %s : option (list N) := None.\n\n" % (
+                key, " ".join("(_ : %s)" % ("N" if c == "N" else "list N") for c in sig))
     text += "Definition ck_translated : list string := [%s]%%string.\n" % "; ".join('"%s"' % k for k, v in status.items() if v is None)
     text += "Definition ck_untranslated : list string := [%s]%%string.\n" % "; ".join('"%s"' % k for k, v in status.items() if v is not None)
     return text, status, fns
